@@ -290,6 +290,61 @@ def check_cli_output(rep, prog):
               "file produces a blank line instead of no output")
 
 
+def check_cli_files(rep, prog):
+    """which table and string file the command decodes with: each of -d / -s, when given, is used as given and the other
+    keeps the drawer type's default - the summary of parse_args is run on every combination of given / not given"""
+    from ..terms import evaluate, CannotEval
+    rule = "C17.R3.region-decoders"
+    q = "io_drawer.dump.parse_args"
+    if not prog.has_func(q):
+        return
+    I = Interpreter(prog)
+    r = I.call(q, [])
+    items = list_items(I, r)
+    pa = [Op("m:parse_args", e.data[0], *e.data[2]) for e in I.events if e.kind == "methcall" and e.data[1] == "parse_args"]
+    if items is None or len(items) != 3 or not pa:
+        rep.fail(rule, q, "return (dump_file, header_file, string_file)", "parse_args no longer returns (dump file, header file, string file)")
+        return
+    A = lambda n_: Op("attr:" + n_, pa[0])
+    names = sorted({x.op[5:] for it in items for x in walk(it[1]) if isinstance(x, Op) and x.op.startswith("attr:") and x.args and x.args[0] == pa[0]})
+    tname = [n_ for n_ in names if n_ not in ("dump_file", "header_file", "string_file")]
+    stubs = {"call:os.path.dirname": lambda p_: "DIR", "call:os.path.join": lambda *p_: "/".join(str(x_) for x_ in p_),
+             "modfile": lambda m_: "MOD", "call:os.path.abspath": lambda p_: p_, "call:os.path.realpath": lambda p_: p_}
+
+    def run_(h_, s_, t_):
+        env = pelx.with_heap(I, {A("dump_file"): "D.bin", A("header_file"): h_, A("string_file"): s_,
+                                 Op("truthy", A("header_file")): bool(h_), Op("truthy", A("string_file")): bool(s_)})
+        for n_ in tname:
+            env[A(n_)] = t_
+        env["__ops__"] = stubs
+        out = []
+        for it in items:
+            v = evaluate(it[1], env)
+            out.append(tuple(v) if isinstance(v, list) else v)
+        return tuple(out)
+    bad = None
+    n = 0
+    try:
+        for t_ in ("mex", "nimitz"):
+            d0 = run_(None, None, t_)
+            for h_, s_ in ((None, None), ("my_pte.h", None), (None, "myStrings"), ("my_pte.h", "myStrings"), ("", "myStrings"), ("my_pte.h", "")):
+                got = run_(h_, s_, t_)
+                want = ("D.bin", h_ or d0[1], s_ or d0[2])
+                n += 1
+                if got != want and bad is None:
+                    bad = "-t %s%s%s decodes with (header file, string file) = %r, expected %r" % (
+                        t_, " -d %s" % h_ if h_ else "", " -s %s" % s_ if s_ else "", got[1:], want[1:])
+            if bad is None and (not d0[1] or not d0[2] or d0[1] == d0[2]):
+                bad = "the defaults of drawer type %s are %r" % (t_, d0[1:])
+        if bad is None and run_(None, None, "mex")[1:] == run_(None, None, "nimitz")[1:]:
+            bad = "both drawer types decode with the same default files"
+    except CannotEval as e:
+        raise AnalysisError("parse_args summary not evaluable: %s" % e)
+    rep.count("option combinations evaluated (dump CLI)", n)
+    rep.check(bad is None, rule, "the dump command decodes with the -d / -s file when given and the drawer type's default otherwise, each on its own",
+              q, "return (dump_file, header_file, string_file)", "the dump command does not decode with the files asked for: %s" % bad)
+
+
 def run(rep, prog, thorough):
     rep.explanation = (
         "parse_dump_data is interpreted with the region formatters opaque: search keys and the offset filter are checked as "
@@ -302,5 +357,6 @@ def run(rep, prog, thorough):
     check_file(rep, prog)
     check_cli_output(rep, prog)
     check_text_formats(rep, prog)
+    check_cli_files(rep, prog)
     from ..effects import check_no_memoised
     check_no_memoised(rep, prog, 'C17.R3.region-decoders', ['io_drawer'], 'results of an earlier decode are reused')
